@@ -205,7 +205,7 @@ def _probe(spec):
         lines.append((f"tdec {cps(ttl_text)}", f"some {cps(lex)}", None))
         lines.append((f"tenc {cps(lex)}", f"some {cps(lex)}", "turtle"))
         kind = _KINDS.get(o[2]) if o[2] else None
-        if kind and lit.language is None:
+        if kind and lit.language is None and not (len(o) > 4 and o[4] == "raw"):
             tok = _object_text(lit, "turtle")
             if not tok.startswith('"'):
                 norm = str(Literal(tok, datatype=lit.datatype))   # external: what a reader's Literal() makes of the token
@@ -332,7 +332,7 @@ def _hext_probe(spec):
     import json as _json
     lines, seen = [], []
     for _s, _p, o in spec["triples"]:
-        if o in seen or (o[0] == "l" and o[3] == ""):
+        if o in seen or (o[0] == "l" and (o[3] == "" or (len(o) > 4 and o[4] == "raw"))):
             continue
         seen.append(o)
         if len(seen) > HEXT_MAX:
@@ -516,7 +516,19 @@ def _x_jsonld_typed_cell(spec, v):
     return typed > 0 and 0 < lost <= typed and " added " not in v
 
 
-_EXPLAIN = {"dotted_prefix": _x_dotted_prefix, "n3_sameas_in_brackets": _x_n3_sameas, "xml_name_percent": _x_xml_name,
+def _x_decimal_exponent(spec, v):
+    """turtle family: an xsd:decimal literal whose lexical form carries an exponent comes back as xsd:double"""
+    if _tag(v) not in ("rt-turtle", "rt-longturtle", "rt-n3") or "XMLSchema#double" not in v:
+        return False
+    for _s, _p, o in spec["triples"]:
+        if o[0] == "l" and o[2] == gg.XSD + "decimal":
+            lex = str(gg.term(o))
+            if "e" in lex or "E" in lex:
+                return True
+    return False
+
+
+_EXPLAIN = {"decimal_exponent_bare": _x_decimal_exponent, "dotted_prefix": _x_dotted_prefix, "n3_sameas_in_brackets": _x_n3_sameas, "xml_name_percent": _x_xml_name,
             "jsonld_typed_list_cell": _x_jsonld_typed_cell}
 
 
